@@ -293,18 +293,21 @@ theorem cancelled_reply_unsolicited {s : St} (h : Reachable s) (c : Nat) (r : Re
 
 /-! ## channel capacities: the facts of the source the step function relies on -/
 
+/-- capacities of every creation of a channel with this element type (the channels of the client are told apart by what
+they carry, not by the name of the variable or of the function that creates them, so that moving the `make` into a
+helper does not change the table's meaning) -/
+def capsOfElem (e : String) : List Nat := (Gen.chanMakes.filter (·.elem == e)).map (·.cap)
+
 /-- **Channel capacities.** The `make(chan …)` expressions of the source (regenerated into `Gen.chanMakes` on every run)
 have exactly the capacities the model's step function uses: the per-request reply channel 1 (`replyCap`), the token
-channel 1, Connect's `errs` 2 (`errsCap`), `sendQueue` 0 (rendezvous), `ackQueue` `ackQueueSz`; each is created at one
-place only. -/
+channel 1, Connect's error channels 2 (`errsCap`, for the two loops) and 1 (negotiation), `sendQueue` 0 (rendezvous),
+`ackQueue` `ackQueueSz`; each is created at one place only. -/
 theorem chan_caps :
-    Gen.chanCapsOf "Client.handleOutgoing" "replyChan" = [replyCap] ∧
-    Gen.chanCapsOf "Client.send" "tokenChan" = [tokenCap] ∧
-    Gen.chanCapsOf "Client.Connect" "errs" = [errsCap] ∧
-    Gen.chanCapsOf "NewClient" "sendQueue" = [sendQueueCap] ∧
-    Gen.chanCapsOf "NewClient" "ackQueue" = [Gen.ackQueueSz] ∧
-    (Gen.chanMakes.filter (fun c => c.name == "replyChan" || c.name == "tokenChan" || c.name == "sendQueue" ||
-      c.name == "ackQueue" || (c.name == "errs" && c.func == "Client.Connect"))).length = 5 := by
+    capsOfElem "Message" = [replyCap] ∧
+    capsOfElem "sendToken" = [tokenCap] ∧
+    capsOfElem "request" = [sendQueueCap] ∧
+    capsOfElem "messageID" = [Gen.ackQueueSz] ∧
+    (Gen.chanMakes.filter (fun c => c.func == "Client.Connect" && c.elem == "error")).map (·.cap) = [errsCap, 1] := by
   decide
 
 /-- **The hand-over of a reply never blocks.** Whenever the read loop is about to put a frame on a caller's reply
